@@ -436,13 +436,13 @@ def check(case):
             hash(fm_e)
             _warm = (fm_e == fm, [hash(c) for c in fm_e.get_constraints()], [c == c for c in fm_e.get_constraints()],
                      sorted(fm_e.get_constraints()), [hash(r) for r in fm_e.get_relations()])
-            apply_edit(fm_e)
+            cm.checked_edit(fm_e, apply_edit, model, em, ekind)
             engine.tick(3)
+        except AssertionError:
+            raise
         except Exception as exc:  # noqa: BLE001
             out.append(Fail('inplace-edit-raises:%s' % type(exc).__name__, {'edit': ekind, 'msg': str(exc)[:150]}))
             continue
-        if bd.observe(fm_e) != em:
-            raise AssertionError('in-place edit %s did not produce the expected model' % ekind)
         sub = []
         _eq_contract(fm_e, bd.build(em), 'model', sub, True)
         _eq_contract(fm_e, fm, 'model', sub, False)
